@@ -183,4 +183,29 @@ theorem trimLeftSlash_head (b : Bytes) : (trimLeftSlash b).head? ≠ some slash 
     · exact ih
     · rename_i hc; simp [hc]
 
+/-- every segment `strings.Split(s, "/")` returns is free of '/' (C02: a placeholder's value,
+    being one segment, contains no '/') -/
+theorem splitSlash_mem_no_slash (q : Bytes) : ∀ x ∈ splitSlash q, slash ∉ x := by
+  induction q with
+  | nil =>
+    intro x hx
+    simp only [splitSlash, List.mem_singleton] at hx
+    subst hx; simp
+  | cons c cs ih =>
+    intro x hx
+    rw [splitSlash] at hx
+    split at hx
+    · rcases List.mem_cons.mp hx with rfl | h
+      · simp
+      · exact ih x h
+    · rename_i hc
+      cases hcs : splitSlash cs with
+      | nil => exact absurd hcs (splitSlash_ne_nil cs)
+      | cons s0 ss =>
+        rw [hcs] at hx ih
+        rcases List.mem_cons.mp hx with rfl | h
+        · simp only [List.mem_cons, not_or]
+          exact ⟨fun e => hc e.symm, ih s0 (List.mem_cons_self ..)⟩
+        · exact ih x (List.mem_cons_of_mem _ h)
+
 end Flamego
